@@ -1284,7 +1284,7 @@ def setup():
 def replay(path):
     d = json.load(open(os.path.join(VERIF, path) if not os.path.isabs(path) else path))
     print(json.dumps(d, indent=1))
-    if d.get("case", "-") != "-" and d["case"].split(" ")[0] in ("B",):
+    if d.get("case", "-") != "-" and d["case"].split(" ")[0] in ("B", "E", "F", "A", "O", "R", "AR", "S", "AS"):
         with Lock():
             okh, hlog = build_harness()
             build_lean(["fvdriver"])
